@@ -8,7 +8,11 @@ S->I: TLC enumerates verdict tables: for every script item of a family (all Roto
       (pkg.Asn, shadowing the built-in; such items are grouped into scripts that do not use the
       built-in of that name) and in a sub-module (pkg.ns.Asn) - bare and under Option / List /
       Result / Verdict in parameter, return and filtermap-payload position, with the real leaves
-      as controls; thorough: also depth 2 and 3) the set of Rust signatures of the family's universe that must be handed
+      as controls; MODULE PLACEMENT: every parameterless filtermap form (accept-only, reject-only,
+      fully used) and plain functions declared in every module position of small module trees
+      (root only; root+sub; two siblings; nested), every subset of the other modules declaring a
+      filtermap of its own, retrieved by module path - the verdict must not depend on the
+      placement; bare names / wrong paths are unknown names; thorough: also depth 2 and 3) the set of Rust signatures of the family's universe that must be handed
       out; everything else of the universe must be refused.  python prints the items as a Roto
       script, the harness compiles it once and calls get_function::<F>(name) for every F of the
       universe (compiled-in table harness/src/tables/c04_types.rs, generated from TLC's Universe
@@ -376,7 +380,6 @@ def tlc_family(family):
     cfg = os.path.join(d, "mc_%s.cfg" % family)
     with open(cfg, "w") as f:
         f.write('SPECIFICATION MCSpec\nCONSTANT Family = "%s"\nINVARIANT Emit\nCHECK_DEADLOCK FALSE\n' % family)
-    big = family in ("allret", "allpar")
     r = run_tlc("MCTypeGate", cfg, workers=2, timeout=1500, heap="4g", coverage=False)
     require_tlc_ok(r, "MCTypeGate " + family)
     us = [json.loads(vlib._unescape_tla(raw)) for (tag, raw) in r.prints if tag == "UNIVERSE"]
@@ -911,8 +914,9 @@ def run(tier):
         "arities 0..7 on the Rust side (RotoFunc is implemented for 0..7), 0..8 on the Roto side; multi-parameter signatures "
         "only on the ladder (one deviating position, swapped neighbours) and in the seeded random pass",
         "the set of requestable Rust types is the compiled-in table (generated from TLC's Universe sets)",
-        "functions are declared in the root module only (names without module path); one sub-module `ns` holds "
-        "script-declared namesake types; tests (`test` items) are not probed",
+        "module placement: trees of at most 3 modules (pkg, a, b | a.c), parameterless filtermaps over {unused, bare, "
+        "literal, u8, String} and three plain functions; all other families declare their functions in the root module; "
+        "one sub-module `ns` holds script-declared namesake types; tests (`test` items) are not probed",
         "namesakes: one record or enum per leaf identifier and module (root / ns), nested one level; no Rust type may "
         "retrieve them (neither the same-named leaf nor Val<T> registered under that name)",
         "error kind (DoesNotExist / IncorrectNumberOfArguments / TypeMismatch) is recorded, not asserted",
